@@ -1253,8 +1253,10 @@ def correspond(ctx):
                 ctx.dist('X:judged')
                 report(ctx, 'X', tag, smi, x)
     exhaustive(ctx, s_env, s_to, s_from, s_tof)
+    s_conf = Stream(ctx, 'conformers')
+    conformer_stream(ctx, s_conf)
     edge_from(ctx, s_edge)
-    for s in (s_env, s_to, s_tof, s_from, s_rt, s_edge):
+    for s in (s_env, s_to, s_tof, s_from, s_rt, s_edge, s_conf):
         s.run()
     if _state.get('unsupported-dropped'):
         ctx.notes.append(f"{len(_state['unsupported-dropped'])} molecules lost only labels RDKit cannot carry (allene, cumulated or "
@@ -1539,6 +1541,196 @@ def edge_from(ctx, stream):
         stream.add(req, outcome(real), tag)
 
 
+# ------------------------------------------------------------------------------------------------
+# conformers (`_conformers` <-> RDKit conformers): model stream `conformers` + own judges
+# ------------------------------------------------------------------------------------------------
+
+def rnd_p3(rng):
+    return tuple(rng.randint(-160, 160) / Q for _ in range(3))
+
+
+def rconfs_ints(rd):
+    out = [rd.GetNumConformers()]
+    for c in rd.GetConformers():
+        ps = c.GetPositions()
+        out += [int(c.Is3D()), len(ps)]
+        for v in ps:
+            out += [q16(float(x)) for x in v]
+    return out
+
+
+def confs_ints(confs):
+    out = [len(confs)]
+    for d in confs:
+        out.append(len(d))
+        for n, v in d.items():
+            out += [n] + [q16(float(x)) for x in v]
+    return out
+
+
+def from_conf_ints(mol, had_conformer):
+    out = [1] if had_conformer else [0]
+    if had_conformer:
+        for a in mol._atoms.values():
+            out += [q16(float(a.x)), q16(float(a.y))]
+    if hasattr(mol, '_conformers'):
+        out += [1] + confs_ints(mol._conformers)
+    else:
+        out.append(0)
+    return out
+
+
+def make_conformers(rng, mol, kind):
+    """`_conformers` for `mol`: full dicts in their own random key order (`ok`), or one of the malformed shapes."""
+    nums = list(mol._atoms)
+    k = rng.choice([1, 1, 2, 3])
+    confs = []
+    for _ in range(k):
+        keys = nums[:]
+        rng.shuffle(keys)
+        confs.append({n: rnd_p3(rng) for n in keys})
+    if kind == 'empty-list':
+        return []
+    d = confs[rng.randrange(k)]
+    if kind == 'last-missing' and nums:
+        del d[nums[-1]]
+    elif kind == 'middle-missing' and len(nums) > 2:
+        del d[nums[rng.randrange(1, len(nums) - 1)]]
+    elif kind == 'first-missing' and len(nums) > 1:
+        del d[nums[0]]
+    elif kind == 'unknown-atom':
+        extra = max(nums) + rng.randint(1, 5)
+        items = list(d.items())
+        items.insert(rng.randrange(len(items) + 1), (extra, rnd_p3(rng)))
+        d.clear()
+        d.update(items)
+    elif kind == 'empty-dict':
+        d.clear()
+    return confs
+
+
+def judge_conf_A(mol, confs):
+    """chython -> RDKit -> chython for `_conformers` (full dicts): the RDKit molecule holds the 2-D conformer first and then one 3-D
+    conformer per entry with every atom's position at the atom's index; the molecule coming back holds the same list re-keyed by
+    position, and the same `xy`."""
+    from chython.utils.rdkit import to_rdkit_molecule, from_rdkit_molecule
+    bad = []
+    m = mol.copy()
+    if confs is not None:
+        m._conformers = confs
+    nums = list(m._atoms)
+    rd = to_rdkit_molecule(m)
+    want = [(False, [(a.x, a.y, 0.0) for a in m._atoms.values()])] + [(True, [tuple(d[n]) for n in nums]) for d in (confs or [])]
+    got = [(c.Is3D(), [tuple(float(x) for x in v) for v in c.GetPositions()]) for c in rd.GetConformers()]
+    if got != want:
+        bad.append(('conformers-to-rdkit', f'RDKit conformers {got!r:.300} != expected {want!r:.300}'))
+    back = from_rdkit_molecule(rd)
+    wantb = [{i + 1: tuple(d[n]) for i, n in enumerate(nums)} for d in (confs or [])]
+    gotb = [{n: tuple(float(x) for x in v) for n, v in d.items()} for d in getattr(back, '_conformers', [])]
+    if gotb != wantb:
+        bad.append(('conformers', f'_conformers after the round trip {gotb!r:.300} != {wantb!r:.300}'))
+    if [(float(a.x), float(a.y)) for a in back._atoms.values()] != [(a.x, a.y) for a in m._atoms.values()]:
+        bad.append(('coordinates', 'xy differ after the round trip of a molecule with conformers'))
+    return bad
+
+
+def add_rd_conformers(rng, rd, flags):
+    from rdkit import Chem
+    from rdkit.Chem import Conformer
+    rd = Chem.Mol(rd)
+    rd.RemoveAllConformers()
+    for f in flags:
+        c = Conformer(rd.GetNumAtoms())
+        for i in range(rd.GetNumAtoms()):
+            x, y, z = rnd_p3(rng)
+            c.SetAtomPosition(i, (x, y, z if f else 0.0))
+        c.Set3D(bool(f))
+        rd.AddConformer(c, assignId=True)
+    return rd
+
+
+def judge_conf_B(rd):
+    """RDKit -> chython -> RDKit for conformers: `xy` = x, y of the first conformer whatever its flag; `_conformers` = the 3-D
+    conformers in order keyed 1..N (attribute absent when there is none); on the way back the 2-D conformer of `xy` comes first,
+    then the 3-D ones unchanged."""
+    from chython.utils.rdkit import to_rdkit_molecule, from_rdkit_molecule
+    bad = []
+    src = [(c.Is3D(), [tuple(float(x) for x in v) for v in c.GetPositions()]) for c in rd.GetConformers()]
+    mol = from_rdkit_molecule(rd)
+    want3 = [{i + 1: v for i, v in enumerate(ps)} for f, ps in src if f]
+    got3 = [{n: tuple(float(x) for x in v) for n, v in d.items()} for d in getattr(mol, '_conformers', [])]
+    if got3 != want3 or (not want3 and hasattr(mol, '_conformers')):
+        bad.append(('conformers-from-rdkit', f'_conformers {got3!r:.300} != the 3-D conformers of the RDKit molecule {want3!r:.300}'))
+    wxy = [(v[0], v[1]) for v in src[0][1]] if src else [(0.0, 0.0)] * rd.GetNumAtoms()
+    if [(float(a.x), float(a.y)) for a in mol._atoms.values()] != wxy:
+        bad.append(('coordinates', 'xy != x, y of the first conformer'))
+    back = to_rdkit_molecule(mol, keep_mapping=False)
+    got = [(c.Is3D(), [tuple(float(x) for x in v) for v in c.GetPositions()]) for c in back.GetConformers()]
+    want = [(False, [(x, y, 0.0) for x, y in wxy])] + [(True, ps) for f, ps in src if f]
+    if got != want:
+        bad.append(('conformers', f'conformers after the round trip {got!r:.300} != {want!r:.300}'))
+    return bad
+
+
+CONF_KINDS = ['ok', 'ok', 'ok', 'none', 'empty-list', 'last-missing', 'middle-missing', 'first-missing', 'unknown-atom', 'empty-dict']
+
+
+def conformer_stream(ctx, stream):
+    from rdkit import Chem
+    rng = ctx.rng
+    pool = [s for s in STEREO + OTHER + list(molgen.HANDMADE) if '|' not in s]
+    pool = rng.sample(pool, min(len(pool), 40 if ctx.quick else 160)) + ['C', '[Na+].[Cl-]', 'CCO']
+    for smi in pool:
+        mol = parse(smi)
+        if mol is None or any(a._implicit_hydrogens is None for a in mol._atoms.values()):
+            continue
+        try:
+            mol = molgen.renumber(rng, mol)[0]          # atom numbers other than 1..N, shuffled insertion order
+        except Exception:
+            pass
+        set_coords(rng, mol)
+        for kind in rng.sample(CONF_KINDS, 4 if ctx.quick else len(CONF_KINDS)):
+            confs = None if kind == 'none' else make_conformers(rng, mol, kind)
+            m = mol.copy()
+            if confs is not None:
+                m._conformers = confs
+            ids = list(m._atoms)
+            req = line('toc', len(ids), ids, [v for a in m._atoms.values() for v in (q16(a.x), q16(a.y))],
+                       [0] if confs is None else [1] + confs_ints(confs))
+
+            def real():
+                from chython.utils.rdkit import to_rdkit_molecule
+                return rconfs_ints(to_rdkit_molecule(m))
+            got = outcome(real)
+            stream.add(req, got, f'conf-to:{kind}:{smi}')
+            ctx.dist('conformers-to:' + kind)
+            if kind in ('ok', 'none', 'empty-list'):
+                try:
+                    bad = judge_conf_A(mol, confs)
+                except Exception as e:
+                    bad = [('raises', f'conversion of a molecule with conformers raised {type(e).__name__}: {str(e)[:100]}')]
+                ctx.count(('A-conf', smi, kind))
+                report(ctx, 'A', f'conformers:{kind}', smi, bad, {'judge': 'conf', 'seed': ctx.seed})
+        rd0 = Chem.MolFromSmiles(smi)
+        if rd0 is None or not rd_representable(rd0):
+            continue
+        for flags in rng.sample([(), (0,), (1,), (0, 1), (1, 0), (1, 1), (0, 0, 1), (1, 0, 1), (0, 1, 1)], 3 if ctx.quick else 9):
+            rd = add_rd_conformers(rng, rd0, flags)
+            req = line('fromc', rd.GetNumAtoms(), rconfs_ints(rd))
+
+            def real():
+                from chython.utils.rdkit import from_rdkit_molecule
+                return from_conf_ints(from_rdkit_molecule(rd), bool(flags))
+            stream.add(req, outcome(real), f'conf-from:{flags}:{smi}')
+            ctx.dist('conformers-from:%d' % len(flags))
+            try:
+                bad = judge_conf_B(rd)
+            except Exception as e:
+                bad = [('raises', f'conversion of an RDKit molecule with conformers raised {type(e).__name__}: {str(e)[:100]}')]
+            ctx.count(('B-conf', smi, flags))
+            report(ctx, 'B', f'conformers:{flags}', smi, bad, {'judge': 'conf', 'seed': ctx.seed})
+
+
 def pre_of(m, keep):
     """the RWMol before SanitizeMol even when sanitisation then fails."""
     from chython.utils.rdkit import to_rdkit_molecule
@@ -1663,6 +1855,23 @@ def probe(inp):
     if inp.get('judge') == 'N':
         bad = judge_N(smi) or []
         return bool(bad), (f'{bad[0]}' if bad else f'no label is left on a non-stereogenic centre of {smi}')
+    if inp.get('judge') == 'conf':
+        rng = random.Random(inp.get('seed', 0))
+        found = []
+        if mol is not None and all(a._implicit_hydrogens is not None for a in mol._atoms.values()):
+            for kind in ('ok', 'ok', 'none', 'empty-list'):
+                try:
+                    found += judge_conf_A(mol, None if kind == 'none' else make_conformers(rng, mol, kind))
+                except Exception as e:
+                    found.append(('raises', type(e).__name__))
+        rd0 = Chem.MolFromSmiles(smi) if '|' not in smi else None
+        if rd0 is not None and rd_representable(rd0):
+            for flags in ((), (0,), (1,), (0, 1), (1, 0), (1, 1), (0, 1, 1)):
+                try:
+                    found += judge_conf_B(add_rd_conformers(rng, rd0, flags))
+                except Exception as e:
+                    found.append(('raises', type(e).__name__))
+        return bool(found), (f'{len(found)} failures; first: {found[0]}' if found else f'conformers survive both round trips for {smi}')
     if inp.get('judge') not in ('A', 'B', 'M', 'X'):
         inp = dict(inp, judge='any')
     if mol is not None and inp.get('judge', 'A') in ('A', 'any'):
